@@ -61,7 +61,7 @@ def run(ctx):
         # a tensor shape smaller than the joining fiber's own declared shape: only through setRoot (an explicit shape= argument of fromFiber that is
         # smaller than the data is the caller's contradiction, not the library's)
         cases.append({"kind": "owner", "tree": rand_tree(rng, 4, depth, pz=0.0, pabs=0.2), "depth": depth, "fdflt": rng.choice([0, 3]), "tdflt": rng.choice([0, 9]),
-                      "fshape": 5, "tshape": rng.choice([3, 5, 8] if how == "setRoot" else [5, 8]), "how": how})
+                      "fshape": 5, "tshape": rng.choice([3, 5, 8] if how == "setRoot" else [5, 8]), "how": how, "touch": rng.choice([0, 1])})
     # tensors built from nests without a declared shape, rectangular and ragged across parents
     for _ in range(n // 3):
         depth = rng.choice([2, 3])
